@@ -595,7 +595,7 @@ class Daemon(object):
             # create and use one singleton instance of this class (not a global singleton, just exactly one per daemon)
             with self.create_single_instance_lock:
                 instance = self._pyroInstances.get(clazz)
-                if not instance:
+                if instance is None:
                     log.debug("instancemode %s: creating new pyro object for %s", instance_mode, clazz)
                     instance = createInstance(clazz, instance_creator)
                     self._pyroInstances[clazz] = instance
@@ -605,7 +605,7 @@ class Daemon(object):
             # the instances are kept on the connection object.
             # (this is the default instance mode when using new style @expose)
             instance = conn.pyroInstances.get(clazz)
-            if not instance:
+            if instance is None:
                 log.debug("instancemode %s: creating new pyro object for %s", instance_mode, clazz)
                 instance = createInstance(clazz, instance_creator)
                 conn.pyroInstances[clazz] = instance
